@@ -64,6 +64,7 @@ type Contract struct {
 	NoMapRange  []string          // callee-name substrings that must not be called inside a loop ranging over a map
 	WriteFrame  bool              // every heap store must target memory allocated by this call or context-owned memory
 	FreshResult bool              // (trusted specs) the result is a fresh allocation
+	UsesMapNext bool              // some clause mentions the ghost log mapnext
 	NoNilChecks bool              // sweep: nil-dereference obligations are not generated
 }
 
@@ -175,6 +176,9 @@ func (ct *ContractTable) LoadFile(path, pkg string, inRepo bool) {
 			if err != nil {
 				ct.errf(path, ln, "%v", err)
 				e = CBool{true}
+			}
+			if cur != nil && strings.Contains(src, "mapnext") {
+				cur.UsesMapNext = true
 			}
 			return Clause{Expr: e, Src: src, File: path, Line: ln}
 		}
